@@ -438,6 +438,12 @@ def run_case(case):
                 res2 = apply_stub_using_libcst(stub, res, case["overwrite"], case["confine"])
         except HandlerError as e:
             rec["failed"], rec["err"] = True, str(e)[:300]
+            if case.get("via_cli"):      # a command that gives up must leave the module as it found it
+                try:
+                    with open(path, "rb") as fh:
+                        rec["file_changed_by_failed_apply"] = fh.read() != src.encode("latin-1" if latin1 else "utf-8")
+                except OSError:
+                    rec["file_changed_by_failed_apply"] = True
             return rec
         rec["res"] = res[:2500]
         rec["res_full"] = res
@@ -613,6 +619,15 @@ def gen_cases(pid, tier, seed):
             cases.append({"features": ["import_module_runtime", "partial_annotations", "typing_import", "wordy_annotations"], "traced": ["f2"],
                           "types": {"f2": ["int"]}, "overwrite": True, "confine": conf, "k": 0, "via_cli": True})
     plan.append({"family": "wordy annotations overwritten through the `apply` command (result shorter than the file)", "cases": len(cases) - n0})
+    # applications that libcst gives up on (recorded findings), through the command itself: a command that fails leaves the
+    # module file as it found it
+    n0 = len(cases)
+    for conf in confs:
+        for extra in (["fallback_import_in_try"], ["relative_import"], ["reexport_alias_import", "comments"]):
+            for k in (0, 3):
+                cases.append({"features": sorted(["posonly_then_kwonly_params"] + extra), "traced": ["f3", "f1"],
+                              "types": {"f3": ["circle", "square"], "f1": ["int"]}, "overwrite": False, "confine": conf, "k": k, "via_cli": True})
+    plan.append({"family": "applications libcst gives up on, through the `apply` command (the file must be left alone)", "cases": len(cases) - n0})
     # EVERY import the stub brings is a name of a module the source already imports another name from (libcst merges them
     # into the existing statement; no whole statement is new): alone and next to each other source feature
     n0 = len(cases)
@@ -752,6 +767,8 @@ def signature(clause, rec, case):
     if clause == "Idempotent":
         sig["overwrite"] = case["overwrite"]
         sig["second_application_adds"] = rec.get("idem_delta", "")
+    if clause == "ApplyFails" and rec.get("file_changed_by_failed_apply"):
+        return {"clause": clause, "module_file_changed_although_apply_failed": True}
     if clause == "ApplyFails":
         sig["err"] = rec["err"][:80]
         if "latin1_source" in case["features"] and rec.get("source_not_utf8"):
@@ -787,7 +804,7 @@ def main(pid, tier, seed, replay=None):
     records = run_cases(cases)
     by_tid = {r["tid"]: r for r in records}
     case_by = {c["tid"]: c for c in cases}
-    slim = [{k: v for k, v in r.items() if k not in ("err", "stub", "res", "res_full", "source_not_utf8")} for r in records]
+    slim = [{k: v for k, v in r.items() if k not in ("err", "stub", "res", "res_full", "source_not_utf8", "file_changed_by_failed_apply")} for r in records]
     for r in slim:
         for it in r["src_imports"] + r["res_imports"]:
             it.pop("bound", None)
